@@ -331,13 +331,192 @@ def child_task(t, res):
         res.add("child_fps", (str(t["hashseed"]), k, v))
 
 
+# ------------------------------------------------------------------ isolation children and neighbour histories
+# Hidden state that the snapshot does not know about (a cache added to the library, a module global) would be shared by the
+# reference pass and every later observation of one process and so stay invisible to a differential oracle. Two further
+# layers close that gap, both in fresh interpreters:
+#   iso    each observed configuration is generated ALONE in a fresh interpreter (nothing was generated before it) -> must equal
+#          the in-process reference (which generated all configurations one after the other);
+#   neigh  for each observed configuration X, every history [op(Y)] / [op(Y), op(X)] with Y a one-field neighbour of X and
+#          op in {construct, generate, from_config}, then X is generated and compared with its isolated fingerprint.
+CHILD2 = r"""
+import json, sys, warnings
+warnings.filterwarnings("ignore")
+sys.path.insert(0, sys.argv[1]); sys.path.insert(0, sys.argv[2])
+from mzcheck import runner
+runner.bind_repo()
+from mzcheck.checks import c04
+job = json.loads(sys.argv[3])
+print("OUT " + json.dumps(c04.child2(job), sort_keys=True, default=str))
+"""
+
+
+def neighbours(spec):
+    """one-field-different configurations of spec (label suffix, spec)"""
+    out = [("seed", dict(spec, seed=(spec["seed"] if spec["seed"] != None_default else 42) + 1)),
+           ("n_mazes+1", dict(spec, n=spec["n"] + 1)), ("n_mazes-1", dict(spec, n=spec["n"] - 1)),
+           ("grid_n", dict(spec, grid=spec["grid"] + 1)), ("name", dict(spec, name="c04other"))]
+    kw = dict(spec["kw"])
+    if spec["gen"] in ("gen_dfs", "gen_prim"):
+        kw2 = dict(kw, do_forks=not kw.get("do_forks", True)) if "accessible_cells" not in kw else dict(kw, accessible_cells=kw["accessible_cells"] + 1)
+        other = "gen_wilson"
+    elif spec["gen"] == "gen_wilson":
+        kw2, other = None, "gen_dfs"
+    else:
+        kw2, other = dict(kw, p=round(kw["p"] + 0.2, 3)), None
+    if kw2 is not None:
+        out.append(("maze_ctor_kwargs", dict(spec, kw=kw2)))
+    if other is not None and not kw:
+        out.append(("maze_ctor", dict(spec, gen=other)))
+    ek = dict(spec.get("endpoint_kwargs", {}))
+    out.append(("endpoint_kwargs", dict(spec, endpoint_kwargs=dict(ek, deadend_end=not ek.get("deadend_end", False)))))
+    if "filters" in spec:
+        out.append(("filters", {k: v for k, v in spec.items() if k != "filters"}))
+    else:
+        out.append(("filters", dict(spec, filters=[("path_length", (2,), {})])))
+    return out
+
+
+def make_cfg2(spec, with_filters=True):
+    cfg = make_cfg(spec, with_filters)
+    if "name" in spec:
+        cfg.name = spec["name"]
+    return cfg
+
+
+def _run_op(op, spec):
+    from maze_dataset import MazeDataset
+
+    try:
+        if op == "construct":
+            make_cfg2(spec).to_fname()
+        elif op == "generate":
+            MazeDataset.generate(make_cfg2(spec, with_filters=False))
+        elif op == "from_config":
+            MazeDataset.from_config(make_cfg2(spec), load_local=False, save_local=False, do_download=False)
+    except (ValueError, AssertionError):
+        pass  # a neighbour may legitimately fail to generate (documented endpoint errors); it is only history
+
+
+def neigh_histories(spec):
+    H = []
+    for fld, y in neighbours(spec):
+        for op in ("construct", "generate", "from_config"):
+            H.append([(op, fld, y)])
+        H.append([("generate", fld, y), ("generate", "self", spec)])
+    H.append([("generate", "self", spec)])
+    H.append([("from_config", "self", spec)])
+    return H
+
+
+def _fp_or_exc(spec):
+    from maze_dataset import MazeDataset
+
+    try:
+        ds = MazeDataset.generate(make_cfg(spec, with_filters=False))
+        return fp_dataset(ds)
+    except ValueError as e:
+        return "raises:" + type(e).__name__
+
+
+def child2(job):
+    specs = dict(observed_cfgs(job["tier"]))
+    if job["mode"] == "iso":
+        return {l: _fp_or_exc(specs[l]) for l in job["labels"]}
+    # neigh: this interpreter is pristine (library imported, nothing constructed or generated). Every history runs in its own
+    # fork of it, so no history sees what another one left behind (caches, module globals) - isolation at fork cost.
+    spec = specs[job["label"]]
+    out = []
+    hs = neigh_histories(spec)
+    for i in job.get("only", range(len(hs))):
+        r, w = os.pipe()
+        pid = os.fork()
+        if pid == 0:
+            try:
+                os.close(r)
+                random.seed(1234)  # the random module re-seeds itself from the OS in a forked child: pin it again
+                for op, fld, y in hs[i]:
+                    _run_op(op, y)
+                msg = json.dumps(dict(i=i, hist=[(op, fld) for op, fld, _ in hs[i]], fp=_fp_or_exc(spec)))
+            except BaseException as e:  # noqa: BLE001
+                msg = json.dumps(dict(i=i, hist=[(op, fld) for op, fld, _ in hs[i]], fp=f"harness:{type(e).__name__}:{e}"))
+            os.write(w, msg.encode())
+            os._exit(0)
+        os.close(w)
+        buf = b""
+        while True:
+            b = os.read(r, 65536)
+            if not b:
+                break
+            buf += b
+        os.close(r)
+        os.waitpid(pid, 0)
+        out.append(json.loads(buf))
+    return out
+
+
+def run_child2(job, hashseed="0"):
+    env = dict(os.environ)
+    env["PYTHONHASHSEED"] = hashseed
+    repo = os.environ.get("MZ_REPO", "/repo")
+    p = subprocess.run([sys.executable, "-c", CHILD2, str(VERIF), repo, json.dumps(job)], capture_output=True, text=True, env=env, cwd="/var/tmp")
+    for line in p.stdout.splitlines():
+        if line.startswith("OUT "):
+            return json.loads(line[4:])
+    raise RuntimeError(f"child failed: {p.stderr[-800:]}")
+
+
+def iso_task(t, res):
+    got = run_child2(dict(mode="iso", tier=t["tier"], labels=t["labels"]))
+    for l, f in got.items():
+        res.ev()
+        res.add("iso_fps", (l, "+".join(t["labels"]) if len(t["labels"]) > 1 else "alone", f))
+
+
+def neigh_task(t, res):
+    """all neighbour histories of one observed configuration in one fresh interpreter, judged against its isolated fingerprint"""
+    label = t["label"]
+    iso = run_child2(dict(mode="iso", tier=t["tier"], labels=[label]))[label]
+    out = run_child2(dict(mode="neigh", tier=t["tier"], label=label))
+    for k, o in enumerate(out):
+        res.ev()
+        res.nontrivial(("neigh", label, o["i"]))
+        res.count("neighbour_histories")
+        if o["fp"].startswith("harness:"):
+            raise RuntimeError(o["fp"])
+        if o["fp"] != iso:
+            fld = "+".join(sorted({f for _, f in o["hist"]}))
+            res.fail(f"C04|generate|after_neighbour_config:{fld}|differs", f"generate({label}) after the history {o['hist']} in an otherwise pristine process differs from generating it alone "
+                     f"in a fresh interpreter: {o['fp']} vs {iso}", dict(kind="neigh", label=label, i=o["i"], tier=t["tier"]))
+
+
+def replay_neigh(d, res):
+    label = d["label"]
+    iso = run_child2(dict(mode="iso", tier=d["tier"], labels=[label]))[label]
+    for only in ([d["i"]],):
+        out = run_child2(dict(mode="neigh", tier=d["tier"], label=label, only=only))
+        if out[-1]["fp"] != iso:
+            fld = "+".join(sorted({f for _, f in out[-1]["hist"]}))
+            res.fail(f"C04|generate|after_neighbour_config:{fld}|differs", f"{label}: histories {only}: {out[-1]['fp']} vs alone {iso}", d)
+            return
+
+
 def run(ctx):
     depth = 2 if ctx.quick else 3
     tasks = [dict(first=None, depth=depth, tier=ctx.tier)] + [dict(first=o, depth=depth, tier=ctx.tier) for o in ops(ctx.tier)]
     ctx.pmap("mzcheck.checks.c04", "task", tasks)
     hs = ["0", "1", "2", "4242", "random"]
     ctx.pmap("mzcheck.checks.c04", "child_task", [dict(hashseed=h, tier=ctx.tier) for h in hs])
+    labels = [l for l, _ in observed_cfgs(ctx.tier)]
+    ctx.pmap("mzcheck.checks.c04", "iso_task", [dict(tier=ctx.tier, labels=[l]) for l in labels] + [dict(tier=ctx.tier, labels=labels[::-1])])
+    ctx.pmap("mzcheck.checks.c04", "neigh_task", [dict(tier=ctx.tier, label=l) for l in labels])
     ref = dict(ctx.res.sets.get("ref_fps", ()))
+    raises = {l for l in labels if l not in ref}
+    for l, how, f in sorted(ctx.res.sets.get("iso_fps", ())):
+        want = ref.get(l, None)
+        if (want is None and not f.startswith("raises:")) or (want is not None and f != want):
+            ctx.res.fail("C04|generate|order_of_generation|differs", f"generate({l}) generated {how} in a fresh interpreter gives {f}, but {want} when generated after the "
+                         f"other observed configurations in one process", dict(kind="iso", label=l, tier=ctx.tier))
     by = collections.defaultdict(dict)
     for h, k, v in ctx.res.sets.get("child_fps", ()):
         by[k][h] = v
@@ -349,10 +528,14 @@ def run(ctx):
     c = ctx.res.counters
     ctx.coverage.update(states=c.get("states", 0), transitions=c.get("transitions", 0),
                         traces_validated_against_impl=ctx.res.evaluations, depth=depth, history_ops=ops(ctx.tier),
-                        observed_configs=[l for l, _ in observed_cfgs(ctx.tier)], hashseeds=hs)
+                        observed_configs=[l for l, _ in observed_cfgs(ctx.tier)], hashseeds=hs,
+                        isolated_children=len(labels) + 1, neighbour_histories=c.get("neighbour_histories", 0),
+                        neighbour_fields=sorted({f for _, sp in observed_cfgs(ctx.tier) for f, _ in neighbours(sp)}))
     ctx.rule = ("BFS over histories (alphabet of RNG draws / re-seeds / other generations / config constructions / tokenisations / caller being a "
                 "multiprocessing child) up to the depth, states de-duplicated by a digest of all global RNG + module state; in every state every observed "
-                "configuration is generated and compared with the fingerprint from the initial state; distinct = (configuration, history) pairs")
+                "configuration is generated and compared with the fingerprint from the initial state; every observed configuration is also generated alone in a "
+                "fresh interpreter and after every history [op(Y)], [generate(Y), generate(X)] over its one-field neighbours Y x op in {construct, generate, from_config}; "
+                "distinct = (configuration, history) pairs")
     ctx.exhaustive = True
     ctx.assumptions += ["global state = python random, numpy legacy global, numpy_rng Generator, torch RNG, GLOBAL_SEED, worker-config global, process identity"]
 
@@ -360,6 +543,16 @@ def run(ctx):
 def replay(d, res):
     import multiprocessing
 
+    if d.get("kind") == "neigh":
+        return replay_neigh(d, res)
+    if d.get("kind") == "iso":
+        labels = [l for l, _ in observed_cfgs(d["tier"])]
+        alone = run_child2(dict(mode="iso", tier=d["tier"], labels=[d["label"]]))[d["label"]]
+        rev = run_child2(dict(mode="iso", tier=d["tier"], labels=labels[::-1]))[d["label"]]
+        fwd = run_child2(dict(mode="iso", tier=d["tier"], labels=labels))[d["label"]]
+        if len({alone, rev, fwd}) > 1:
+            res.fail("C04|generate|order_of_generation|differs", f"{d['label']}: alone {alone}, after the others {fwd}, reversed order {rev}", d)
+        return
     if d.get("kind") == "children":
         tier = "quick"
         vals = {}
